@@ -23,6 +23,15 @@ CHECKS = {
  'C10': dict(text='generate-at-most-once and cached-call-is-free proved by induction over arbitrary sequential histories of the protocol model (the cache key contains no values); tie: generation/compile/wrap events of the real code observed by rebinding module globals, per-call generation trace diffed against the model, for int/float/Fraction/ndarray/sympy/mixed coefficients and composite operators with nested generation.',
              note='Lean kernel + standard axioms; a generation attempt that raises stores nothing and is retried (modelled as failing generation)',
              tech='Lean 4 invariant proof + event-trace correspondence', ref='6/C10'),
+ 'C08': dict(text='Congruence of the denotation proved for every generator of the model (all product-type operators through the one refinement theorem, add/sub/neg/involutions/Hodge): equal elements in, equal element out, for permutations, zero padding and repeated keys alike, all coefficient rings. Tie: metamorphic run of every real operator (incl. composite, inverse/division, outer series) on reference vs. permuted / zero-padded (also higher-grade padding) / full canonical / full binary storage with tracer-ring coefficients, plus a canonical-permuted-canonical history with and without wrapper.',
+             note='composite sympy-path operators (sw, proj, inv, div, outer*) are covered by the metamorphic run only (their generation path is modelled under C06/C07); dense operands of those in d >= 3 are thorough-only',
+             tech='Lean 4 congruence corollaries of the refinement theorems + metamorphic tracer-ring comparison', ref='6/C08'),
+ 'C15': dict(text='MultiVector.__new__ modelled branch by branch (keyword re-keying, sanitising, grade inference, graded-mode check, mapping / full-length / symbolic / mismatch branches, final grade check) and the accessors; tie: every constructor form x spellings x grades x graded mode x convenience constructors diffed against the model (keys, values or error class), getattr for permuted spellings; direct round-trip oracle through getattr/items/in/grade/asfullmv/map/filter.',
+             note='values are integers or symbols; one open finding (graded mode + Mapping) is listed in known_findings.json',
+             tech='Lean 4 model + proofs of the round-trip and error clauses + constructor-call correspondence', ref='6/C15'),
+ 'C17': dict(text='kingdon.polynomial modelled operation by operation (merge addition, factor-merge multiplication, shortcuts of RationalPolynomial, addition-chain powers); proved for ALL stored inputs: evaluation into any commutative ring / field is a homomorphism for add, sub, neg, mul, pow, rational add/sub/mul/div/inv; == and the zero tests are sound; normal forms are preserved and on them the zero tests are exact. Tie: enumerated and seeded operator programs on the real classes vs. the model with literal comparison of the args structure, plus denotation of every intermediate value in an independent free ring.',
+             note='integer coefficients only (python floats are outside the model); programs are well typed',
+             tech='Lean 4 proof (evaluation homomorphism, normal forms) + structural differential testing', ref='6/C17'),
 }
 NOT_YET = 'check not built yet in this round (design in DESIGN.md section 6); not claimed until it runs green on the unchanged tree'
 
